@@ -205,6 +205,15 @@ func (f *DB) Reload(path string, validationKey []byte, reloadTimeout time.Durati
 		}
 
 		// Validate newDBI
+		if newDBI == f.dbi {
+			// The backend reloaded in place (e.g. RocksDB catch-up) and is still the one
+			// being served and pinned by readers: validate it, but never destroy it.
+			if err = f.ValidateDbKey(validationKey); err != nil {
+				glog.Errorf("Key validation for reloaded DBI failed")
+				return f, err
+			}
+			return f, nil
+		}
 		newDB := &DB{dbi: newDBI}
 		err = newDB.validateDbKeyOrDestroy(validationKey)
 		if err != nil {
